@@ -39,6 +39,8 @@ def U2():
     u["n_tab_t30"] = make_event("A", 1, 30, [["t", "ab"]], "n4")
     u["n_eab_pA_t20"] = make_event("C", 2, 20, [["e", "ab"], ["p", PK["A"]]], "n5")
     u["n_taNUL_t20"] = make_event("A", 1, 20, [["t", "a\x00"]], "n6")
+    # one value under two tag names (a condition on #e must not be satisfied by what is listed for #p)
+    u["n_eA_pA_t25"] = make_event("C", 2, 25, [["e", PK["A"]], ["p", PK["A"]]], "n8")
     u["n_ta_T"] = make_event("B", 1, T9, [["t", "a"], ["p", PK["A"]]], "n7")
     return u
 
@@ -50,7 +52,7 @@ QUICK_N = 6  # quick tier: subsets of the first 6 members
 def members(tier, uname="U1"):
     names = list(UNIVERSES[uname]())
     if uname == "U2":
-        return names[:6] if tier == "quick" else names
+        return names[:7] if tier == "quick" else names
     return names[:QUICK_N] if tier == "quick" else names
 
 
